@@ -59,6 +59,7 @@ type interpreter struct {
 	extCache           map[*ssa.Function]externalFn
 	initOK             map[string]bool // packages whose initialisers run
 	fieldWatch         map[string]bool
+	regexps            map[*value]*regexState
 	sharedInit         map[string]bool
 	extraMutable       map[string]bool
 }
